@@ -121,8 +121,11 @@ TYPES = {
     "CNAME": ("CNAME", 5, 0), "DNAME": ("DNAME", 39, 0), "NSEC": ("NSEC", 47, 0),
     "KEY": ("KEY", 25, 0), "SOA": ("SOA", 6, 0),
     "RRSIG:A": ("RRSIG", 46, 1), "RRSIG:CNAME": ("RRSIG", 46, 5), "RRSIG:NSEC": ("RRSIG", 46, 47),
+    # the obsolete SIG type shares the RRSIG class (it has a covered type too) but is ordinary data
+    # for the CNAME rule
+    "SIG:CNAME": ("SIG", 24, 5), "SIG:KEY": ("SIG", 24, 25),
 }
-OTHER_TYPES = ["A", "TXT", "MX", "NS", "DNAME", "NSEC", "KEY", "RRSIG:A", "RRSIG:CNAME", "RRSIG:NSEC", "A", "TXT"]
+OTHER_TYPES = ["A", "TXT", "MX", "NS", "DNAME", "NSEC", "KEY", "RRSIG:A", "RRSIG:CNAME", "RRSIG:NSEC", "A", "TXT", "SIG:CNAME", "SIG:KEY"]
 
 MUTATORS = ("add", "replace", "delete", "delete_exact", "update_serial")
 PUT_FORMS = ("rrset", "rdataset", "ttl_rdata")
@@ -1120,7 +1123,7 @@ def histories(draw, max_txns, max_ops):
         wires = []
         for _ in range(3 if tname not in ("SOA",) else 2):
             w = bytearray(bytes.fromhex(draw(R.record(name=gname, ctx=ctx))["wire"]))
-            if gname == "RRSIG":
+            if gname in ("RRSIG", "SIG"):
                 w[0:2] = covers.to_bytes(2, "big")
             if gname == "SOA" and draw(st.booleans()):
                 w[-20:-16] = draw(st.sampled_from(_SERIALS)).to_bytes(4, "big")
